@@ -1,8 +1,8 @@
 (* C10 — property theorems only: each closed by [exact] and followed by Print Assumptions. *)
 From Coq Require Import List ZArith Bool Arith Permutation.
-From AV Require Import Model.C10_Order Model.C10_Sort Model.C10_Rank Model.D_C10.
+From AV Require Import Model.C10_Order Model.C10_Sort Model.C10_Rank Model.C10_Heap Model.D_C10.
 From AV Require Import Proofs.C10_Float Proofs.C10_Cmp Proofs.C10_Bytes Proofs.C10_MCmp Proofs.C10_Sort Proofs.C10_SortImpl.
-From AV Require Import Proofs.C10_Kernels Proofs.C10_Partition Proofs.C10_Rank Proofs.C10_Examples Proofs.C10_SortSound Proofs.C10_Lex Proofs.C10_Bool.
+From AV Require Import Proofs.C10_Kernels Proofs.C10_Partition Proofs.C10_Rank Proofs.C10_Examples Proofs.C10_SortSound Proofs.C10_Lex Proofs.C10_Bool Proofs.C10_Heap.
 Import ListNotations.
 
 (* Used below:  tpo c  :=  (forall a, c a a = Eq) /\ (forall a b, c b a = CompOpp (c a b)) /\
@@ -130,6 +130,19 @@ Theorem lexsort_is_tuple_order : forall cols : list (bool * bool * list oval),
 Proof. exact lex_idx_tpo. Qed.
 Print Assumptions lexsort_is_tuple_order.
 
+(* lexsort_topk, the bounded max-heap path of lexsort_to_indices (fully modelled: push + sift_up_worst_heap while fewer than
+   `limit` rows are retained, else replace the root when the new row is smaller + sift_down_worst_heap; final sort by the
+   oracle): for every total preorder, row count and limit >= 1 its result passes the sort predicate, i.e. it is the sorted
+   list of the `limit` smallest rows. *)
+Theorem heap_topk_correct :
+  forall (cmp : nat -> nat -> comparison), tpo cmp ->
+  forall (limit : nat), 0 < limit ->
+  forall (so : (nat -> nat -> comparison) -> list nat -> list nat) (n : nat),
+  (forall c l, tpo c -> Permutation (so c l) l /\ sortedb c (so c l) = true) ->
+  sort_check cmp (seq 0 n) (Some limit) (lexsort_topk so n limit cmp) = 1%Z.
+Proof. exact lexsort_topk_check. Qed.
+Print Assumptions heap_topk_correct.
+
 (* the contracts are satisfiable: insertion sort (the instance run by the extracted model) meets all four *)
 Theorem sort_oracle_instance : forall T : Type,
   (forall (c : T -> T -> comparison) l, tpo c -> Permutation (isort c l) l /\ sortedb c (isort c l) = true) /\
@@ -214,3 +227,12 @@ Theorem kernel_element_tests_ok : forall (ty : list Z) (a b : val),
   m_is_eq ty a b = is_eq_c (vcmp false a b) /\ m_is_lt ty a b = is_lt_c (vcmp false a b).
 Proof. exact (fun ty a b Ha Hb => conj (m_is_eq_ok ty a b Ha Hb) (m_is_lt_ok ty a b Ha Hb)). Qed.
 Print Assumptions kernel_element_tests_ok.
+
+(* the value comparators run by the extracted sort model (float key, slice cmp, sort_bytes' prefix comparator, view keys)
+   meet the hypothesis of sort_impl_sorted_perm on well-formed non-nested values, for any child null order *)
+Theorem sort_value_cmp_ok : forall (ty : list Z) (cnf : bool) (a b : val),
+  (wf_val a /\ match a with VList _ => False | _ => True end) ->
+  (wf_val b /\ match b with VList _ => False | _ => True end) ->
+  m_value_cmp ty a b = vcmp cnf a b.
+Proof. exact m_value_cmp_ok. Qed.
+Print Assumptions sort_value_cmp_ok.
